@@ -114,20 +114,29 @@ Fixpoint is_prefix (a b : bytes) : bool :=
    error too and may have released only a prefix of what the model released
    (everything the model releases is authenticated by the digest). *)
 (* reader kind "ioerr": the source delivers [stream] and then fails with an I/O error that is not
-   end-of-file.  Whatever the bytes delivered so far would mean at a clean end of input, the
-   decoder must report an error (never a clean end), having released at most what the model
-   releases for these bytes; with nothing delivered NewDecoder itself fails. *)
+   end-of-file: the model's failing-source decoder (new_decoder_f / read_f) says exactly what is
+   released and that the last status is an error (Proofs/MiceSourceFault.v: never a clean end,
+   never more than the plain decoder releases for these bytes). *)
 Definition is_ioerr (args : list sx) : bool :=
   match args with [_; _; _; _; _; k] => tag_is k "ioerr" | _ => false end.
+Definition op_mi_dec_ioerr (args : list sx) : sx :=
+  match args with
+  | d :: SB stream :: SB digest :: SZ maxrs :: SL sizes :: _ =>
+      match draft_of d, omap as_n sizes with
+      | Some d, Some sz =>
+          match new_decoder_f sha256 d stream digest (Z.to_N maxrs) with
+          | Ok s =>
+              let '(out, st) := read_trace_f sha256 (4 * S (List.length stream)) s sz sz [] in
+              SL [sym "dec"; SB out; sx_rstat st]
+          | _ => SL [sym "newerr"]
+          end
+      | _, _ => bad_args
+      end
+  | _ => bad_args
+  end.
 Definition judge_mi_dec (args : list sx) (impl : sx) : bool :=
   let m := op_mi_dec args in
-  if is_ioerr args then
-    match m, impl with
-    | SL [t; SB mo; ms], SL [t'; SB io; is] => tag_is t' "dec" && tag_is is "err" && is_prefix io mo
-    | SL [t; SB mo; ms], SL [t'] =>
-        tag_is t' "newerr" && match args with _ :: SB stream :: _ => (lenN stream <? 8) | _ => false end
-    | _, _ => sx_eqb m impl
-    end
+  if is_ioerr args then sx_eqb (op_mi_dec_ioerr args) impl
   else
   match m, impl with
   | SL [t; SB mo; ms], SL [t'; SB io; is] =>
@@ -155,7 +164,7 @@ Definition dispatch_mice (op : bytes) (args : list sx) : option sx :=
   if bytes_eqb op (s2b "sha256") then Some (op_sha256 args)
   else if bytes_eqb op (s2b "b64") then Some (op_b64 args)
   else if bytes_eqb op (s2b "mi_enc") then Some (op_mi_enc args)
-  else if bytes_eqb op (s2b "mi_dec") then Some (op_mi_dec args)
+  else if bytes_eqb op (s2b "mi_dec") then Some (if is_ioerr args then op_mi_dec_ioerr args else op_mi_dec args)
   else if bytes_eqb op (s2b "mi_interleave") then Some (op_mi_interleave args)
   else if bytes_eqb op (s2b "mi_dec_retry") then Some (op_mi_dec_retry args)
   else None.
